@@ -75,8 +75,12 @@ type Replay struct {
 	Run      int64   `json:"run"`
 	Spec     RunSpec `json:"spec"`
 	Schedule []int   `json:"schedule"` // sequence of client ids released by the scheduler
-	Detail   string  `json:"detail"`
-	Note     string  `json:"note,omitempty"`
+	// BlockedSteps lists the steps s at which client Schedule[s], after being released, was found
+	// asleep on a real lock that it took without a yield point in front of it (it continued by
+	// itself when the holder unlocked). Replay waits for exactly this outcome at these steps.
+	BlockedSteps []int  `json:"blocked_steps,omitempty"`
+	Detail       string `json:"detail"`
+	Note         string `json:"note,omitempty"`
 }
 
 func (s RunSpec) NumOps() int {
